@@ -207,8 +207,8 @@ def run_entry(e, S, tmp, mode="fresh", mask=()):
         res = e.build(S)
     if e.has("nonview"):
         return e.norm(res)
-    if mode == "smallbuffer":
-        # (the caller has set petl.config.sort_buffersize to 1) a counting pass first, then the two passes below: three
+    if mode in ("smallbuffer", "manychunks"):
+        # (the caller has set petl.config.sort_buffersize to 1 / 2) a counting pass first, then the two passes below: three
         # passes over a sort that went through chunk files
         n = len(res)
         a = [tuple(r) for r in res]
@@ -252,14 +252,45 @@ def enum_cases(tier):
                                 yield {"entry": name, "shape": list(shape), "empty": list(mask), "filler": fi, "mode": "emptied"}
                             if e.has("sorted") and si == 0:
                                 yield {"entry": name, "shape": list(shape), "empty": list(mask), "filler": fi, "mode": "smallbuffer"}
+                                if name in REFS and len(mask) < e.n:
+                                    # the non-empty inputs have 150 rows and are sorted through 75 chunk files
+                                    yield {"entry": name, "shape": list(shape), "empty": list(mask), "filler": fi, "mode": "manychunks"}
+    # mergesort / merge over MANY inputs (more than any fixed fan-in), one of them header-only, at every position
+    for many in (33, 40, 70):
+        for pos in (0, 1, many // 2, many - 2, many - 1):
+            yield {"entry": "mergesort", "shape": list(SHAPES[0]), "empty": [pos], "filler": 0, "many": many}
+
+
+def check_many(case, ctx):
+    import petl as etl
+    shape, n, pos = tuple(case["shape"]), case["many"], case["empty"][0]
+    S = [mk(shape, []) if i == pos else mk(shape, [dict(d, v=i) for d in FILL[i % len(FILL)]][:2 + i % 2]) for i in range(n)]
+    ctx.nontrivial(True)
+    ctx.label("entry:mergesort", "many-inputs:%d" % n)
+    exp = [tuple(r) for r in R.ref_sort(R.ref_cat(S), "k")]
+    try:
+        got = [tuple(r) for r in etl.mergesort(*codec.snapshot(S), key="k")]
+        got_p = [tuple(r) for r in etl.mergesort(*[[list(r) for r in R.ref_sort(t, "k")] for t in S], key="k", presorted=True)]
+    except Exception as ex:
+        return exc_fail("mergesort/many", ex)
+    for name, g in (("mergesort", got), ("mergesort-presorted", got_p)):
+        if g != exp:
+            k = next((i for i, (a, b) in enumerate(zip(g, exp)) if a != b), min(len(g), len(exp)))
+            return Fail("mergesort/many-inputs/rows", "%s over %d tables (table %d header-only): %d rows, reference %d; first difference at row %d: "
+                        "%r vs %r" % (name, n, pos, len(g) - 1, len(exp) - 1, k, g[k:k + 1], exp[k:k + 1]))
+    return None
 
 
 def check(case, ctx):
+    if case.get("many"):
+        return check_many(case, ctx)
     e = catalog.get(case["entry"])
     shape = tuple(case["shape"])
     mask = set(case["empty"])
     full = [mk(shape, FILL[(case["filler"] + i) % len(FILL)], e.cells) for i in range(e.n)]
     mode = case.get("mode", "fresh")
+    if mode == "manychunks":
+        full = [[t[0]] + [list(t[1 + j % (len(t) - 1)]) for j in range(150)] for t in full]
     S = [mk(shape, []) if i in mask else full[i] for i in range(e.n)]
     snap = codec.snapshot(S)
     if mode == "emptied":
@@ -271,6 +302,8 @@ def check(case, ctx):
     try:
         if mode == "smallbuffer":
             _cfg.sort_buffersize = 1
+        if mode == "manychunks":
+            _cfg.sort_buffersize = 2
         got = run_entry(e, S, ctx.tmpdir() if e.has("file") else None, mode, sorted(mask))
     except _PassDiffers as ex:
         return Fail(e.name + "/second-pass-differs", str(ex))
